@@ -20,6 +20,7 @@ struct Run<'a, C: Cs> {
     commitment: Commitment<CL03<C>>,
     trusted: Option<(CL03Commitment, &'a CL03CommitmentPublicKey)>,
     zk: Zk<C>,
+    order: usize,
 }
 
 impl<'a, C: Cs> Run<'a, C> {
@@ -27,8 +28,18 @@ impl<'a, C: Cs> Run<'a, C> {
         let bases = self.st.bases_n(self.n);
         zk.verify_proof(c, self.trusted.as_ref().map(|t| &t.0), self.st.pk(), &bases, self.trusted.as_ref().map(|t| t.1), u)
     }
+    /// revealed (index, attribute) pairs; `order` permutes the pairs (the API takes two parallel lists, the
+    /// order in which a caller lists the pairs must not matter)
     fn revealed(&self) -> (Vec<usize>, Vec<CL03Message>) {
-        let idx: Vec<usize> = (0..self.n).filter(|i| !self.u.contains(i)).collect();
+        let mut idx: Vec<usize> = (0..self.n).filter(|i| !self.u.contains(i)).collect();
+        match self.order {
+            1 => idx.reverse(),
+            2 => {
+                let k = 1.min(idx.len());
+                idx.rotate_left(k)
+            }
+            _ => {}
+        }
         let m = idx.iter().map(|&i| self.msgs[i].clone()).collect();
         (idx, m)
     }
@@ -60,7 +71,9 @@ fn issuance<C: Cs>(ctx: &Ctx, st: &Setup<C>, own: Option<&CL03CommitmentPublicKe
         ctx.violation("C14:generate_proof-panicked", json!({"case":case,"outcome":zk.outcome.short()}));
         return;
     };
-    let run = Run { st, n, u: u.clone(), msgs: msgs.clone(), commitment, trusted, zk };
+    let order = rand_range(r, 3);
+    ctx.count(&format!("revealed_pairs_order_{}", ["ascending", "descending", "rotated"][order]), 1);
+    let run = Run { st, n, u: u.clone(), msgs: msgs.clone(), commitment, trusted, zk, order };
     let c = run.commitment.cl03Commitment().clone();
     // ---------------- positive
     let ok = ctx.call("ZKPoK::verify_proof", &case, None, || Ok::<_, ()>(run.verify(&run.zk, &c, &u)));
